@@ -1,4 +1,5 @@
 import MimicProofs.Auth
+import MimicProofs.UtilsCode
 import Mimic.Extracted.Auth
 /-!
 # C02 — A password proof is accepted iff it fits this connection's nonce and secret
@@ -167,5 +168,16 @@ theorem session_user_is_vouched (p : Plugin) (info : Info) (fuel : Nat) (d : Dec
 /-- non-vacuity: a concrete account and exchange with the executable SHA-1 would be evaluated by the driver; here
     the abstract statement is instantiated with a constant 20-byte "hash" to show the hypotheses are consistent -/
 example : (∀ x : Bytes, ((fun _ => List.replicate 20 (7 : UInt8)) x).length = 20) := by intro x; simp
+
+/-! ### the code itself (`Mimic.Extracted.UtilsCode`, regenerated from `/repo` by `harness/pytrans2.py`) -/
+
+/-- **`utils.xor` — the XOR through Python integers (`int.from_bytes`, `^`, `to_bytes`) — is the model's `xorb`**: for all
+    operands the byte-wise XOR of both cut to the shorter length, and it never raises (the `to_bytes` it ends with cannot
+    overflow). Every theorem of this file about `xorb` is therefore about the code's `xor`. -/
+theorem xor_is_code (a b : Bytes) : Mimic.Extracted.UtilsCode.xor a b = some (xorb a b) :=
+  MimicProofs.UtilsCode.xor_eq a b
+
+/-- non-vacuity at code level -/
+example : Mimic.Extracted.UtilsCode.xor [0x0f, 0xf0, 0xaa] [0xff, 0x0f] = some [0xf0, 0xff] := by decide +kernel
 
 end MimicProps.C02
